@@ -78,6 +78,7 @@ func (s *scriptReader) noteFault() {
 }
 
 func (s *scriptReader) Read(p []byte) (int, error) {
+	tick()
 	s.mu.Lock()
 	defer s.mu.Unlock()
 	if s.pos >= len(s.steps) {
@@ -127,6 +128,7 @@ func runFaultScript(k faultCase) faultObs {
 	go func() {
 		for m := range ch {
 			obs.msgs = append(obs.msgs, m)
+			tick()
 		}
 		obs.closed = true
 		close(collected)
@@ -318,7 +320,7 @@ func monC13(c *child.Ctx, replay json.RawMessage) {
 		// stop scripts at every boundary (every 2nd in quick): zero tolerance, other error, silence beyond the tolerance
 		stepStop := c.Pick(3, 1)
 		for pos := si % stepStop; pos <= len(data); pos += stepStop {
-			switch (pos + si) % 3 {
+			switch (pos/stepStop + si) % 3 {
 			case 0:
 				f := faultKinds[r.Intn(3)]
 				add(faultCase{Steps: mk(pos, []string{f}), TimeoutMs: 0, WaitMs: 0, StopAfter: pos, WantErrKind: f, Note: fmt.Sprintf("zero tolerance, %s after byte %d", f, pos)}, inside[pos])
